@@ -1,8 +1,12 @@
 package c20
 
 import (
+	"encoding/json"
 	"fmt"
 	"math/rand/v2"
+	"os"
+	"os/exec"
+	"path/filepath"
 	"runtime"
 	"sort"
 	"strings"
@@ -276,6 +280,21 @@ func opKey(k int, d dmodel.Dialect) string {
 	return opNames[k] + "|" + string(d)
 }
 
+// spinBarrier releases all goroutines of a step within a few hundred nanoseconds of each other (a
+// channel or WaitGroup wake-up is spread over scheduler latencies). The counters are only touched
+// BEFORE the operations of the step.
+type spinBarrier struct {
+	n       int32
+	arrived [1 + nOps]atomic.Int32
+}
+
+func (b *spinBarrier) wait(step int) {
+	b.arrived[step].Add(1)
+	for b.arrived[step].Load() < b.n {
+		runtime.Gosched()
+	}
+}
+
 // raceRec is one concurrent observation, kept in the goroutine's own slot.
 type raceRec struct {
 	phase     byte // 'A' uninstrumented cold phase, 'B' instrumented phase
@@ -293,6 +312,10 @@ func runRace(c *rt.Ctx) {
 	}
 	c.Workers = G
 	rounds := c.Pick(48, 480)
+	child := os.Getenv("VERIF_C20RACE_CHILD") != ""
+	if child {
+		rounds = 16
+	}
 	ins := raceInputs(c.Seed, G)
 
 	// the shared, read-only directory under one name; this reference keeps it alive
@@ -306,14 +329,11 @@ func runRace(c *rt.Ctx) {
 		inflight [nOps]atomic.Int32
 		matrix   [nOps][nOps]atomic.Int64
 		slots    = make([][]raceRec, G) // slot g is written by goroutine g only, read after the join
-		startA   = make(chan struct{})
 		startB   = make(chan struct{})
-		readyA   sync.WaitGroup
 		readyB   sync.WaitGroup
+		herd     = &spinBarrier{n: int32(G)}
 	)
-	readyA.Add(G)
 	readyB.Add(G)
-	go func() { readyA.Wait(); close(startA) }()
 	go func() { readyB.Wait(); close(startB) }()
 	c.Par(G, func(g int, w *rt.W) {
 		in := ins[g]
@@ -328,21 +348,21 @@ func runRace(c *rt.Ctx) {
 			}
 			slots[g] = append(slots[g], rec)
 		}
-		// ---- phase A: cold and uninstrumented. After the start barrier the goroutines share NO
-		// monitor state (no atomics, no locks: those would order the goroutines for the detector
-		// and hide races between accesses that are merely close in time). The first thing every
-		// goroutine does is its own prepare(), then every (kind, variant) once, kinds rotated by g.
-		readyA.Done()
-		<-startA
+		// ---- phase A: cold start, "thundering herd" per operation kind. The goroutines meet at a
+		// spin barrier and then ALL run the same kind at the same moment — first prepare() (the
+		// process's first diff / plan / FormatType calls), then kind 0 … 7, every variant — so that
+		// state Atlas initialises lazily on first use is first used by several goroutines within
+		// microseconds. Between two barriers the goroutines share NO monitor state (no atomics, no
+		// locks: those would order the goroutines for the detector and hide races between accesses
+		// that are merely close in time).
+		herd.wait(0)
 		in.prepare()
 		seq := 0
-		for j := 0; j < nOps; j++ {
-			k := (j + g) % nOps
+		for k := 0; k < nOps; k++ {
+			herd.wait(1 + k)
 			for v := 0; v < variants; v++ {
-				for y := r.IntN(3); y > 0; y-- {
-					runtime.Gosched()
-				}
-				record('A', k, v, seq, in.op(k, v))
+				vv := (v + g) % variants
+				record('A', k, vv, seq, in.op(k, vv))
 				seq++
 			}
 		}
@@ -450,6 +470,19 @@ func runRace(c *rt.Ctx) {
 	}
 	c.Count("race:goroutines", int64(G))
 	c.Count("race:overlapping-kind-pairs-observed", int64(pairs))
+	// ---- more cold starts: lazily initialised state is cold once per process, so the workload is
+	// repeated in fresh child processes (same binary, same GORACE settings: their detector reports
+	// land next to ours and are counted by ./check; their output mismatches are re-reported here).
+	children := 0
+	if !child {
+		children = c.Pick(1, 9)
+		for i := 0; i < children; i++ {
+			nv, nr := runRaceChild(c, i)
+			c.Count("race:child-processes", 1)
+			c.Count("race:child-process-detector-exit", int64(nr))
+			c.Count("race:child-process-output-violations", int64(nv))
+		}
+	}
 	if !raceEnabled {
 		// without the detector only the output comparison was made: the data-race half is undecided
 		c.Inconclusive("race-detector-not-compiled-in")
@@ -466,5 +499,52 @@ func runRace(c *rt.Ctx) {
 		"monitor synchronisation at all (maximal power of the race detector, lazy initialisations are hit cold); phase B: %d rounds of seeded kinds with Gosched jitter "+
 		"and an atomic in-flight matrix (extra.overlap = operation-kind pairs observed in flight together). Every concurrent output must equal the digest of the same "+
 		"operation run sequentially afterwards on fresh copies of the inputs; with -race every detector report is a violation (counted by ./check from the GORACE log)", G, rounds),
-		map[string]any{"exhaustive": false, "overlap": overlap, "race_detector": raceEnabled, "unstable_baselines": unstable, "gomaxprocs": runtime.GOMAXPROCS(0)})
+		map[string]any{"exhaustive": false, "overlap": overlap, "race_detector": raceEnabled, "unstable_baselines": unstable, "gomaxprocs": runtime.GOMAXPROCS(0), "cold_start_processes": 1 + children})
+}
+
+// runRaceChild re-executes this binary's c20race in a fresh process and re-reports its violations.
+// It returns the number of violation records and 1 if the child exited with the detector's exit code.
+func runRaceChild(c *rt.Ctx, i int) (nviol, detector int) {
+	exe, err := os.Executable()
+	if err != nil {
+		c.Inconclusive("race-child-not-started")
+		return
+	}
+	dir := filepath.Join(c.Scratch, fmt.Sprintf("child-%d", i))
+	os.MkdirAll(dir, 0o755)
+	out := filepath.Join(dir, "out.jsonl")
+	cmd := exec.Command(exe, "c20race", "--tier", c.Tier, "--seed", fmt.Sprint(c.Seed), "--scratch", dir, "--out", out)
+	cmd.Env = append(os.Environ(), "VERIF_C20RACE_CHILD=1", "VERIF_INFLIGHT_DIR=")
+	err = cmd.Run()
+	if ee, ok := err.(*exec.ExitError); ok {
+		if ee.ExitCode() == 66 {
+			detector = 1
+		} else if ee.ExitCode() != 1 {
+			// crashed (e.g. fatal error: concurrent map writes): that IS an observation of the workload
+			c.Violation("race|child-process-crashed", fmt.Sprintf("the concurrent workload crashed in a fresh process: %v", err),
+				map[string]any{"leg": "race", "seed": c.Seed, "child": i}, nil)
+			nviol++
+		}
+	} else if err != nil {
+		c.Inconclusive("race-child-not-started")
+		return
+	}
+	b, err := os.ReadFile(out)
+	if err != nil {
+		return
+	}
+	for _, ln := range strings.Split(string(b), "\n") {
+		var rec struct {
+			T      string `json:"t"`
+			Key    string `json:"key"`
+			What   string `json:"what"`
+			Case   any    `json:"case"`
+			Detail any    `json:"detail"`
+		}
+		if json.Unmarshal([]byte(ln), &rec) == nil && rec.T == "violation" {
+			c.Violation(rec.Key, rec.What, rec.Case, rec.Detail)
+			nviol++
+		}
+	}
+	return
 }
